@@ -1,4 +1,5 @@
 import Pi2.NotationThm
+import Pi2.PyTie
 /-!
 # C12 — notation is transparent
 
@@ -76,5 +77,18 @@ theorem instantiate_compose (δ₁ δ₂ : VId → Option Pat) (q : Pat) (hδ : 
 def negN (p : NPat) : NPat := .inst (.imp (.mv 0 [] [] [] [] []) (.inst (.mu 0 (.svar 0)) [])) [(0, p)]
 example : (negN (negN (.mv 0 [] [] [] [] []))).Shape = true := by decide
 example : peqF 50 (negN (negN (.mv 0 [] [] [] [] []))) (NPat.ofPat (negN (negN (.mv 0 [] [] [] [] []))).expand) = some true := by decide
+
+/-- the Python pattern operations as written in `pattern.py` (translated on every run, `Pi2/Gen/PyPattern.lean`) are the
+hand-written Python semantics on notation-free patterns that the theorems above are stated about -/
+theorem python_pattern_operations_are_the_model :
+    Gen.Py.translated = true ∧
+    (∀ p e, Gen.Py.evar_is_free p e = Pat.eFresh e p) ∧
+    (∀ p, Gen.Py.metavars p = Py.metavars p) ∧
+    (∀ p x plug, Gen.Py.apply_esubst p x plug = Py.esub x plug p) ∧
+    (∀ p x plug, Gen.Py.apply_ssubst p x plug = Py.ssub x plug p) ∧
+    (∀ p, Gen.Py.instantiate p [] = p) ∧
+    (∀ p δ, δ ≠ [] → Gen.Py.instantiate p δ = Py.inst (Py.lookup δ) p) :=
+  ⟨PyTie.translated, PyTie.evar_is_free_eq, PyTie.metavars_eq, PyTie.apply_esubst_eq, PyTie.apply_ssubst_eq,
+   PyTie.instantiate_nil, PyTie.instantiate_eq⟩
 
 end C12
